@@ -17,7 +17,8 @@ PROPERTY = 'C10'
 LEVEL = 'exploration'
 RULE = ('history = sequence of next / checkpoint (optionally pickled) / restore(any stored checkpoint) / drain operations over an '
         'iterator of a recoverable source (SequenceDataSource plain, multi-sequence, sharded, nested-sharded; ShardedIterable plain '
-        'and sharded) or of a pipeline over it (fused or chained named stages, aggregates in one or both stages, num_threads 0..2); '
+        'and sharded; optionally with failing records skipped by ignore_error) or of a pipeline over it (fused or chained named '
+        'stages, aggregates in one or both stages, optionally sliced by a feature, optional re-batching operator, num_threads 0..2); '
         'model = index into the uninterrupted run: after restoring checkpoint c the iterator must deliver exactly U[p_c:] (multiset '
         'with threads) and the final aggregate must equal the uninterrupted one; non-trivial = >= 2 generations of restore, or a '
         'restore on a sharded source, or threads >= 1; distinct = distinct canonical case JSON')
@@ -48,15 +49,26 @@ def batch_has_even_head(xs):
   return xs[0] % 2 == 0
 
 
+def _identity2(a, x):
+  return a, x
+
+
 def make_source(src, n_or_data):
   from ml_metrics._src.chainables import io  # pylint: disable=g-import-not-at-top
   data = n_or_data
   kind = src['kind']
+  bad = src.get('bad')      # records whose read fails with a skippable error; the source is then built with ignore_error=True
+  if bad:
+    from props.c12 import FailingSeq  # pylint: disable=g-import-not-at-top
   if kind == 'seq':
-    s = io.SequenceDataSource(data)
+    s = io.SequenceDataSource(FailingSeq(data, bad, 'ValueError'), ignore_error=True) if bad else io.SequenceDataSource(data)
   elif kind == 'multi':
     cuts = [0] + sorted(min(c, len(data)) for c in src['cuts']) + [len(data)]
-    s = io.SequenceDataSource.from_sequences([data[a:b] for a, b in zip(cuts, cuts[1:])])
+    if bad:
+      s = io.SequenceDataSource.from_sequences(
+          [FailingSeq(data[a:b], [q - a for q in bad if a <= q < b], 'ValueError') for a, b in zip(cuts, cuts[1:])], ignore_error=True)
+    else:
+      s = io.SequenceDataSource.from_sequences([data[a:b] for a, b in zip(cuts, cuts[1:])])
   elif kind == 'iterable':
     s = io.ShardedIterable(data)
   else:
@@ -79,12 +91,19 @@ def build_pipeline(case, source):
   a = T.new(name='A', num_threads=nt).data_source(source).assign('x', fn=col_add1, input_keys='a')
   if p['filter']:
     a = a.filter(batch_has_even_head, input_keys='a')
+  if p.get('rebatch'):
+    # rows are re-batched on the way: rows read from the source may sit in the re-batching buffer at a checkpoint
+    a = a.apply(_identity2, input_keys=('a', 'x'), output_keys=('a', 'x'), batch_size=p['rebatch'])
   if p['agg_a']:
     a = a.aggregate(targets.SumAgg(), input_keys='x', output_keys='sa')
+    if p.get('slice'):
+      a = a.add_slice('a')        # per-slice aggregation states are created lazily as values show up
   from ml_metrics._src.aggregates import rolling_stats  # pylint: disable=g-import-not-at-top
   if p['shape'] == 'fused':
     if not p['agg_a']:
       a = a.assign('y', fn=col_double, input_keys='x').aggregate(targets.SumAgg(), input_keys=('x', 'y'), output_keys=('sb', 'nb'))
+      if p.get('slice'):
+        a = a.add_slice('a')
     if p.get('inplace_agg'):
       # a shipped metric whose state is updated in place (the user aggregates above return new state objects)
       a = a.add_aggregate(fn=rolling_stats.Counter().as_agg_fn(), input_keys='x', output_keys='cx')
@@ -92,6 +111,8 @@ def build_pipeline(case, source):
   b = T.new(name='B').assign('y', fn=col_double, input_keys='x')
   if p['agg_b']:
     b = b.aggregate(targets.SumAgg(), input_keys='y', output_keys='sb')
+    if p.get('slice'):
+      b = b.add_slice('a')
     if p.get('inplace_agg'):
       b = b.add_aggregate(fn=rolling_stats.Counter().as_agg_fn(), input_keys='y', output_keys='cy')
   return a.chain(b)
@@ -216,6 +237,8 @@ def _source(draw, n, allow_iterable=True):
     shards.append([draw(st.integers(0, k - 1)), k, draw(st.sampled_from([0, 0, 1, 2]))])
   if shards:
     src['shards'] = shards
+  if kind != 'iterable' and n and draw(st.integers(0, 3)) == 0:
+    src['bad'] = sorted(set(draw(st.lists(st.integers(0, n - 1), min_size=1, max_size=3))))
   return src
 
 
@@ -234,7 +257,8 @@ def _pipeline_case(draw, maxops, threads):
   data = [{'a': [draw(st.integers(0, 9)) for _ in range(draw(st.integers(1, 3)))]} for _ in range(nb)]
   shape = draw(st.sampled_from(['fused', 'chained']))
   pipe = {'shape': shape, 'filter': draw(st.booleans()), 'agg_a': draw(st.booleans()), 'agg_b': draw(st.booleans()),
-          'inplace_agg': draw(st.booleans())}
+          'inplace_agg': draw(st.booleans()), 'slice': draw(st.booleans()),
+          'rebatch': draw(st.sampled_from([0, 0, 0, 1, 2, 3]))}
   if shape == 'chained' and not (pipe['agg_a'] or pipe['agg_b']):
     pipe['agg_b'] = True
   return {'source': _source(draw, nb), 'data': data, 'pipeline': pipe, 'num_threads': draw(st.sampled_from(threads)),
@@ -265,7 +289,18 @@ def known_threaded_restore(scenario, case, v):
           and any(o[0] == 'restore' for o in case['ops']))
 
 
-KNOWN = {'F-C10-threaded-restore-skips-prefetched': known_threaded_restore}
+def known_rebatch_buffer(scenario, case, v):
+  """A re-batching operator (batch_size=) holds rows it has read but not yet emitted; the captured state is the position of
+  the source, so a restore drops the buffered rows. Only cases where rows can be buffered at all (some input batch whose size
+  differs from the target) and a restore happens are excluded."""
+  p = case.get('pipeline') or {}
+  return (bool(p.get('rebatch')) and any(len(b['a']) != p['rebatch'] for b in case['data'])
+          and any(o[0] == 'restore' for o in case['ops'])
+          and v.kind in ('resume-loses-or-repeats-elements', 'final-aggregate-differs-after-resume'))
+
+
+KNOWN = {'F-C10-threaded-restore-skips-prefetched': known_threaded_restore,
+         'F-C10-rebatch-buffer-lost-on-restore': known_rebatch_buffer}
 
 SCENARIOS = [
     Scenario('sources', run_history, strategy=strat_sources, budget={'quick': 2500, 'thorough': 40000},
